@@ -169,7 +169,7 @@ def whole_run_protocol(ctx, bt, n, corr_name="whole-run", make_spec=None, footpr
     cfg = E.live_cfg(bt)
     lines, meta = [], []
     for _ in range(n):
-        spec = make_spec(ctx.rng) if make_spec else (gen_spec_x(ctx.rng) if extended else gen_spec(ctx.rng))
+        spec = make_spec(ctx.rng) if make_spec else (gen_spec_x(ctx.rng, raising=True) if extended else gen_spec(ctx.rng))
         ctx.count(corr_name + ":programs")
         try:
             b, data, add = R.build_backtest(bt, spec)
@@ -195,7 +195,7 @@ def whole_run_protocol(ctx, bt, n, corr_name="whole-run", make_spec=None, footpr
             ctx.count(corr_name + ":skipped:nan-state")
             continue
         dates = list(range(len(b.dates)))
-        line = ("wholerunx" if extended else "wholerun") + " %s %s %s %s %s" % (E.ser_cfg(cfg), E.tF(float(spec["capital"])), E.tL(dates, str),
+        line = (("wholeruns" if has_memory(spec["tree"]) else "wholerunx") if extended else "wholerun") + " %s %s %s %s %s" % (E.ser_cfg(cfg), E.tF(float(spec["capital"])), E.tL(dates, str),
                                             E.tL(stamp_tokens(b.dates), str), cap["line"])
         lines.append(line)
         meta.append((spec, err, [E.snap_world(bt, r) for r in cap["roots"]]))
@@ -205,6 +205,17 @@ def whole_run_protocol(ctx, bt, n, corr_name="whole-run", make_spec=None, footpr
             depth += 1
             t = t["kids"][0]
         ctx.count(corr_name + ":depth-%d" % depth)
+        if extended:
+            def post_counts(t):
+                for d in t["stack"]:
+                    if d[0] in POST_ALGOS:
+                        ctx.count("whole-run-x:post:" + d[0] + (":run_always" if d[0] == "RebalanceOverTime" and len(d) > 2 and d[2] else ""))
+                if any(d[0] in POST_ALGOS for d in t["stack"]):
+                    ctx.count("whole-run-x:post:strategies-with-post-steps")
+                ctx.count("whole-run-x:post:strategies")
+                for k in t["kids"]:
+                    post_counts(k)
+            post_counts(spec["tree"])
         ctx.count(corr_name + ":worlds(root+shadow-copies)", len(cap["roots"]))
         ctx.classes.add(("whole", depth, spec["tree"]["stack"][0][0], tuple(x[0] for x in spec["tree"]["stack"][1:-1]),
                          spec["integer"], spec["comm"][0], spec["bidoffer"] is not None, bool(b.strategy.bankrupt)))
@@ -255,7 +266,73 @@ def whole_run_protocol(ctx, bt, n, corr_name="whole-run", make_spec=None, footpr
 
 # ---------------------------------------------------------------------------------------------------------------
 # extended programs (`wholerunx`): the selection part is a sequence of SelectAll / SelectThese / SelectHasData / SelectMomentum
-def gen_stack_x(rng, names, lev=False, rank_ok=True, flow_ok=True):
+POST_ALGOS = ("ScaleWeights", "LimitWeights", "LimitDeltas", "SetCash", "RebalanceOverTime")
+WEIGHERS = ("WeighEqually", "WeighSpecified", "WeighTarget")
+
+
+def gen_post_x(rng, names, wgh, raising=False):
+    """the algos between the weigher and Rebalance: about a third of the stacks carry one or two of ScaleWeights / LimitWeights /
+    LimitDeltas / SetCash.  LimitWeights wants weights that sum to one (ffn raises otherwise): unless `raising`, it only follows a
+    weigher whose weights do, and comes first."""
+    if rng.random() >= 0.36:
+        return []
+    n = len(names)
+    sums_to_one = wgh[0] == "WeighEqually" or (wgh[0] == "WeighSpecified" and abs(sum(wgh[1].values()) - 1.0) < 1e-9
+                                                and all(v > 0 for v in wgh[1].values()))
+
+    def lw():
+        k = n if wgh[0] == "WeighEqually" else len(wgh[1])
+        r = rng.random()
+        if r < 0.15:
+            return ["LimitWeights", rng.choice([0.5 / k, 0.9 / k, 0.05])]          # infeasible cap: the weights are emptied
+        return ["LimitWeights", rng.choice([1.0 / k, 1.0 / k + 1.0 / 64, 0.3, 0.4, 0.5, 0.6, 0.75, 1.0, 1.0 / k + rng.random() * (1 - 1.0 / k)])]
+
+    def ld():
+        if rng.random() < 0.3:
+            sub = [x for x in names if rng.random() < 0.6]
+            return ["LimitDeltas", {x: rng.choice([0.0, 0.05, 0.1, 0.25, round(rng.random() * 0.5, 3)]) for x in sub}]
+        return ["LimitDeltas", rng.choice([0.05, 0.1, 0.1, 0.25, 0.5, 1.0, round(rng.random() * 0.4, 3)])]
+
+    def sc():
+        return ["ScaleWeights", rng.choice([0.5, 0.75, 1.25, -0.5, 0.9])]
+
+    def ca():
+        return ["SetCash", rng.choice([0.25, 0.5, 0.125, 0.1])]
+    out = []
+    kinds = ["ScaleWeights", "LimitWeights", "LimitDeltas", "SetCash"]
+    picks = rng.sample(kinds, rng.choice([1, 1, 2]))
+    if raising and rng.random() < 0.12:
+        # any order, any weigher: LimitWeights may meet weights that do not sum to one and raise
+        for k in picks:
+            out.append({"ScaleWeights": sc, "LimitWeights": lw, "LimitDeltas": ld, "SetCash": ca}[k]())
+        return out
+    if "LimitWeights" in picks:
+        if sums_to_one:
+            out.append(lw())
+        picks = [k for k in picks if k != "LimitWeights"] or (["LimitDeltas"] if not sums_to_one else [])
+    for k in picks:
+        out.append({"ScaleWeights": sc, "LimitDeltas": ld, "SetCash": ca}[k]())
+    return out
+
+
+def has_memory(t):
+    """some stack of the tree ends in run_always(RebalanceOverTime): the driver then threads the algo objects' memory (`wholeruns`)"""
+    last = t["stack"][-1]
+    return (last[0] == "RebalanceOverTime" and len(last) > 2 and bool(last[2])) or any(has_memory(k) for k in t["kids"])
+
+
+def split_stack_x(st):
+    """(flow, scheduler, selection algos, weigher, post-processing algos incl. SetCash) of an extended stack"""
+    st = list(st)
+    flow = None
+    if st[0][0] == "CapitalFlow":
+        flow = float(st[0][1])
+        st = st[1:]
+    j = [i for i, d in enumerate(st) if d[0] in WEIGHERS][0]
+    return flow, st[0], st[1:j], st[j], st[j + 1:-1]
+
+
+def gen_stack_x(rng, names, lev=False, rank_ok=True, flow_ok=True, raising=False):
     """rank_ok=False: no ranked selection (a strategy over sub-strategies: their indices are exactly flat until they trade, so total
     returns tie exactly and the winner would be pandas' sort order, an implementation detail the model does not claim)"""
     base = gen_stack(rng, names, lev)
@@ -289,7 +366,17 @@ def gen_stack_x(rng, names, lev=False, rank_ok=True, flow_ok=True):
         # on the synthetic row): select on data
         if wgh[0] != "WeighEqually" or sels[0][0] == "SelectThese":
             sels, wgh = [["SelectAll"]], ["WeighEqually"]
-    st = [sched] + sels + [wgh, ["Rebalance"]]
+    last = ["Rebalance"]
+    if rng.random() < 0.08:
+        # RebalanceOverTime in place of Rebalance (no run_always wrapper: it is re-armed by every call that reaches it)
+        last = ["RebalanceOverTime", rng.choice([1, 2, 3, 5, 10])]
+    post = gen_post_x(rng, names, wgh, raising)
+    if rng.random() < 0.07:
+        # run_always(RebalanceOverTime(n)): armed by a day on which the stack gets through, it keeps trading towards those weights on
+        # the following calls (temp['cash'] is left out of these stacks: whether SetCash is reached depends on where the stack stops)
+        last = ["RebalanceOverTime", rng.choice([2, 3, 4, 5, 8]), True]
+        post = [d for d in post if d[0] != "SetCash"]
+    st = [sched] + sels + [wgh] + post + [last]
     if rng.random() < 0.15 and sched[0] in KINDS:
         # dated target weights: [scheduler, WeighTarget(frame over a subset of the dates), Rebalance]
         st = [sched, ["WeighTarget", rng.randint(0, 10 ** 6)], ["Rebalance"]]
@@ -298,7 +385,8 @@ def gen_stack_x(rng, names, lev=False, rank_ok=True, flow_ok=True):
     return st
 
 
-def gen_spec_x(rng, nested=None):
+def gen_spec_x(rng, nested=None, raising=False):
+    """raising: post-processing algos may be stacked so that LimitWeights raises (weights that do not sum to one)"""
     spec = gen_spec(rng, nested=nested)
     if spec["grid"] != "float":
         # ranked selection: avoid exact ties between total returns (pandas' sort is then an implementation detail)
@@ -309,7 +397,7 @@ def gen_spec_x(rng, nested=None):
 
     def redo(t):
         names = [k["name"] for k in t["kids"]] + t["tickers"]
-        t["stack"] = gen_stack_x(rng, names, rank_ok=not t["kids"])
+        t["stack"] = gen_stack_x(rng, names, rank_ok=not t["kids"], raising=raising)
         for k in t["kids"]:
             redo(k)
     redo(spec["tree"])
@@ -320,8 +408,8 @@ def gen_spec_x(rng, nested=None):
             spec["prices"][t] = [None] * k + [p if p is not None else 10.0 + 0.37 * i for i, p in enumerate(spec["prices"][t][k:])]
     # a late listing may only meet stacks whose selection filters on data
     def safe(t):
-        st = t["stack"]
-        return st[-2][0] == "WeighEqually" and all(safe(k) for k in t["kids"])     # (a WeighTarget stack is not: it trades by name)
+        wgh = split_stack_x(t["stack"])[3]
+        return wgh[0] == "WeighEqually" and all(safe(k) for k in t["kids"])     # (a WeighTarget stack is not: it trades by name)
     if not safe(spec["tree"]):
         for j, t in enumerate(spec["tickers"]):
             spec["prices"][t] = [p if p is not None else 10.0 + 0.37 * i + j for i, p in enumerate(spec["prices"][t])]
@@ -331,14 +419,11 @@ def gen_spec_x(rng, nested=None):
 def ser_progx(bt, node, spec_node, bdates, first_row=1):
     kids = list(node._childrenv)
     name_idx = {k.name: i for i, k in enumerate(kids)}
-    st = list(spec_node["stack"])
-    flow = None
-    if st[0][0] == "CapitalFlow":
-        flow = float(st[0][1])
-        st = st[1:]
-    sched, sels, wgh = st[0], st[1:-2], st[-2]
+    flow, sched, sels, wgh, post = split_stack_x(spec_node["stack"])
     is_target = wgh[0] == "WeighTarget"
-    toks = ["T" if is_target else "X", E.tO(flow)]
+    last = spec_node["stack"][-1]
+    rot_always = last[0] == "RebalanceOverTime" and len(last) > 2 and last[2]
+    toks = ["T" if is_target else ("R " + E.tF(float(last[1])) if rot_always else "X"), E.tO(flow)]
     if sched[0] in KINDS:
         toks += [str(KINDS[sched[0]]), E.tB(sched[1]), E.tB(sched[2]), E.tB(sched[3])]
     elif sched[0] == "RunOnce":
@@ -403,6 +488,35 @@ def ser_progx(bt, node, spec_node, bdates, first_row=1):
     else:
         items = [(name_idx[x], w) for x, w in wgh[1].items()]
         toks.append("S %d %s" % (len(items), " ".join("%d %s" % (i, E.tF(w)) for i, w in items)))
+    # post-processing: `C scale` | `W limit` | `D order glob? per-name limits`; then temp['cash'] (SetCash) or N
+    ptoks, cash = [], None
+    for d in post:
+        if d[0] == "ScaleWeights":
+            ptoks.append("C " + E.tF(float(d[1])))
+        elif d[0] == "LimitWeights":
+            ptoks.append("W " + E.tF(float(d[1])))
+        elif d[0] == "LimitDeltas":
+            # the algo iterates over set(children.keys() + weights.keys()); every key of the weights is a child here, so that is
+            # the iteration order of this very set in this process (new keys enter the dict - and are traded - in that order)
+            order = [name_idx[x] for x in set(list(node.children.keys()) + list(node.children.keys()))]
+            if isinstance(d[1], dict):
+                per = [(name_idx[x], float(v)) for x, v in d[1].items()]
+                ptoks.append("D %s N %s" % (E.tL(order, str), E.tL(per, lambda q: "%d %s" % (q[0], E.tF(q[1])))))
+            else:
+                ptoks.append("D %s %s 0" % (E.tL(order, str), E.tF(float(d[1]))))
+        elif d[0] == "SetCash":
+            cash = float(d[1])
+        else:
+            raise ValueError(d[0])
+    if rot_always:
+        if cash is not None:
+            raise ValueError("SetCash with run_always(RebalanceOverTime)")
+    elif last[0] == "RebalanceOverTime":
+        ptoks.append("O " + E.tF(float(last[1])))
+    elif last[0] != "Rebalance":
+        raise ValueError(last[0])
+    toks.append("%d %s" % (len(ptoks), " ".join(ptoks)))
+    toks.append(E.tO(cash))
     by_name = {k["name"]: k for k in spec_node["kids"]}
     toks.append(str(len(kids)))
     for k in kids:
